@@ -138,7 +138,7 @@ func CalcLineSegmentOverlap(line1, line2 LineSegment) (overlap LineSegment, isOv
 		}
 	})
 
-	notOverlap := shapes[1][0].state == shapes[2][0].state
+	notOverlap := shapes[0][0].state == shapes[1][0].state
 	singlePointOverlap := shapes[1][2].Equal(shapes[2][2].Point)
 	if notOverlap || singlePointOverlap {
 		return overlap, false
